@@ -123,7 +123,7 @@ Lemma marshal_tinyint_spec g ob x : wf_native g -> clean_native Id.tinyint g ->
 Proof.
   intros Hwf Hcl Hm Hd. destruct g as [| |k named z|named s| | | | | | | | ns| | | | | | | | | | | | ]; cbn [marshal_tinyint as_named denote_int] in *; try discriminate.
   - injection Hm as <-. injection Hd as <-. reflexivity.
-  - injection Hd as <-. destruct Hcl as [Hcl _]. specialize (Hcl 127 eq_refl). cbn [wf_native] in Hwf.
+  - injection Hd as <-. specialize (Hcl 127 eq_refl). cbn [wf_native] in Hwf.
     cbn [enc_opt_native encode_native]. change (Id.tinyint =? Id.tinyint) with true. cbv iota.
     destruct named, k; cbn [is_signed kmin kmax] in *; split_ifs; int_hyps; injection Hm as <-;
       rewrite fixed1 by (try specialize (Hcl eq_refl); lia); reflexivity.
@@ -145,7 +145,7 @@ Lemma marshal_smallint_spec g ob x : wf_native g -> clean_native Id.smallint g -
 Proof.
   intros Hwf Hcl Hm Hd. destruct g as [| |k named z|named s| | | | | | | | ns| | | | | | | | | | | | ]; cbn [marshal_smallint as_named denote_int] in *; try discriminate.
   - injection Hm as <-. injection Hd as <-. reflexivity.
-  - injection Hd as <-. destruct Hcl as [Hcl _]. specialize (Hcl 32767 eq_refl). cbn [wf_native] in Hwf. enc_id.
+  - injection Hd as <-. specialize (Hcl 32767 eq_refl). cbn [wf_native] in Hwf. enc_id.
     destruct named, k; cbn [is_signed kmin kmax] in *; split_ifs; int_hyps; injection Hm as <-;
       rewrite fixed2 by (try specialize (Hcl eq_refl); lia); reflexivity.
   - destruct named; [discriminate|]. destruct (parse_int s 16) as [n|] eqn:E; [|discriminate]. injection Hm as <-.
@@ -160,7 +160,7 @@ Lemma marshal_int_spec g ob x : wf_native g -> clean_native Id.int g ->
 Proof.
   intros Hwf Hcl Hm Hd. destruct g as [| |k named z|named s| | | | | | | | ns| | | | | | | | | | | | ]; cbn [marshal_int as_named denote_int] in *; try discriminate.
   - injection Hm as <-. injection Hd as <-. reflexivity.
-  - injection Hd as <-. destruct Hcl as [Hcl _]. specialize (Hcl 2147483647 eq_refl). cbn [wf_native] in Hwf. enc_id.
+  - injection Hd as <-. specialize (Hcl 2147483647 eq_refl). cbn [wf_native] in Hwf. enc_id.
     destruct named, k; cbn [is_signed kmin kmax] in *; split_ifs; int_hyps; injection Hm as <-;
       rewrite fixed4 by (try specialize (Hcl eq_refl); lia); reflexivity.
   - destruct named; [discriminate|]. destruct (parse_int s 32) as [n|] eqn:E; [|discriminate]. injection Hm as <-.
@@ -173,6 +173,9 @@ Qed.
 Lemma size2c_8 z : size2c z = 8%nat -> fits_signed 8 z = true /\ varint_bytes z = be_fixed 8 z.
 Proof. intros E. split; [apply size2c_le; lia | unfold varint_bytes; rewrite E; reflexivity]. Qed.
 
+Ltac norm_big H :=
+  unfold MaxInt64 in H; pow_consts; split_ifs; int_hyps; ok_inv H.
+
 Lemma marshal_bigint_spec id g ob x : id = Id.bigint \/ id = Id.counter -> wf_native g -> clean_native id g ->
   marshal_bigint g = Ok ob -> denote_int true g = Some x -> enc_opt_native id x = Some ob.
 Proof.
@@ -181,7 +184,7 @@ Proof.
   { intros z Hz. destruct Hid as [-> | ->]; enc_id; rewrite fixed8 by lia; reflexivity. }
   destruct g as [| |k named z|named s| | | | |z| | | ns| | | | | | | | | | | | ]; cbn [marshal_bigint as_named denote_int] in *; try discriminate.
   - injection Hm as <-. injection Hd as <-. reflexivity.
-  - injection Hd as <-. destruct Hcl as [Hcl _]. specialize (Hcl 9223372036854775807).
+  - injection Hd as <-. specialize (Hcl 9223372036854775807).
     assert (Hmx : col_signed_max id = Some 9223372036854775807) by (destruct Hid as [-> | ->]; reflexivity). specialize (Hcl Hmx).
     cbn [wf_native] in Hwf.
     destruct named, k; cbn [is_signed kmin kmax] in *.
@@ -193,9 +196,8 @@ Proof.
   - destruct named; [discriminate|]. destruct (parse_int s 64) as [n|] eqn:E; [|discriminate]. injection Hm as <-.
     apply parse_int_decimal in E; [|lia]. destruct E as [E Hr]. rewrite E in Hd. injection Hd as <-. change (2 ^ (64 - 1)) with 9223372036854775808 in Hr.
     rewrite Henc by lia. reflexivity.
-  - (* big.Int: inside the finding's region unless the minimal length is 8 *)
-    injection Hd as <-. injection Hm as <-. cbn [clean_native] in Hcl. specialize (Hcl Hid). apply size2c_8 in Hcl. destruct Hcl as [Hf Hv].
-    rewrite enc_bigint2c_minimal, Hv. destruct Hid as [-> | ->]; enc_id; unfold fixed_signed; rewrite Hf; reflexivity.
+  - (* big.Int: 8 bytes, values outside int64 rejected *)
+    injection Hd as <-. norm_big Hm. rewrite Henc by lia. reflexivity.
   - injection Hd as <-. cbn [wf_native] in Hwf. cbn [is_signed] in Hm. injection Hm as <-. rewrite Henc by lia. reflexivity.
 Qed.
 
@@ -342,22 +344,29 @@ Proof.
   - change (denote_native Id.timestamp (GTime sec nsec)) with (if zero_time sec nsec then None else Some (Some (VInt (millis_of sec nsec)))) in Hd.
     cbn [marshal_timestamp] in Hm. change (time_is_zero sec nsec) with (zero_time sec nsec) in Hm.
     destruct (zero_time sec nsec); [discriminate|]. injection Hd as <-. ok_inv Hm.
-    cbn [wf_native clean_native] in *. destruct Hcl as [Hcl _]. specialize (Hcl (or_introl eq_refl)). destruct Hcl as [Hlo Hhi].
+    cbn [wf_native clean_native] in *. specialize (Hcl (or_introl eq_refl)). destruct Hcl as [Hlo Hhi].
     rewrite time_millis_spec by assumption. enc_id.
     rewrite fixed8; [reflexivity|]. unfold millis_of in *. pow_consts. lia.
 Qed.
 
-Lemma quot_floor ts : 0 <= ts \/ ts mod ms_per_day = 0 -> Z.quot ts K.millisecondsInADay = ts / ms_per_day.
+Lemma floor_days ts :
+  (if Z.rem ts K.millisecondsInADay <? 0 then Z.quot ts K.millisecondsInADay - 1 else Z.quot ts K.millisecondsInADay) = ts / ms_per_day.
 Proof.
-  change K.millisecondsInADay with ms_per_day. unfold ms_per_day. intros [H|H].
-  - apply Z.quot_div_nonneg; lia.
-  - rewrite (Z.div_mod ts 86400000) at 1 by lia. rewrite H, Z.add_0_r, Z.mul_comm. apply Z.quot_mul. lia.
+  change K.millisecondsInADay with 86400000. unfold ms_per_day.
+  pose proof (Z.quot_rem ts 86400000 ltac:(lia)) as Hq. pose proof (Z.rem_bound_abs ts 86400000 ltac:(lia)) as Hr.
+  assert (Hs : 0 <= ts -> 0 <= Z.rem ts 86400000) by (intros; apply Z.rem_nonneg; lia).
+  assert (Hs' : ts <= 0 -> Z.rem ts 86400000 <= 0) by (intros; apply Z.rem_nonpos; lia).
+  set (q := Z.quot ts 86400000) in *. set (r := Z.rem ts 86400000) in *. cbn in Hr. clearbody q r.
+  destruct (Z.ltb_spec r 0); lia.
 Qed.
 
-Lemma date_bytes_spec ts : (0 <= ts \/ ts mod ms_per_day = 0) -> fits_signed 4 (ts / ms_per_day) = true ->
-  enc_opt_native Id.date (Some (VInt (ts / ms_per_day))) = Some (Some (date_of_millis ts)).
+Lemma enc_date_spec ts ob : enc_date ts = Ok ob ->
+  enc_opt_native Id.date (Some (VInt (ts / ms_per_day))) = Some ob.
 Proof.
-  intros Hc Hf. enc_id. rewrite Hf. unfold date_of_millis. rewrite quot_floor by exact Hc.
+  unfold enc_date. cbv zeta. rewrite floor_days. unfold MinInt32, MaxInt32. intros H.
+  destruct (Z.ltb_spec (ts / ms_per_day) (-2147483648)); [discriminate|]. destruct (Z.ltb_spec 2147483647 (ts / ms_per_day)); [discriminate|].
+  cbn [orb] in H. ok_inv H. enc_id.
+  replace (fits_signed 4 (ts / ms_per_day)) with true by (symmetry; apply fits_signed_iff; cbn; lia).
   rewrite enc_int_spec, Z.shiftl_1_l. reflexivity.
 Qed.
 
@@ -369,13 +378,12 @@ Proof.
   - injection Hm as <-. injection Hd as <-. reflexivity.
   - destruct k; try discriminate. destruct named; [discriminate|].
     change (denote_native Id.date (GInt I64 false z)) with (Some (Some (VInt (z / ms_per_day)))) in Hd.
-    injection Hd as <-. cbn [marshal_date] in Hm. ok_inv Hm. cbn [clean_native] in Hcl. destruct Hcl as [_ [_ Hcl]]. specialize (Hcl eq_refl).
-    apply date_bytes_spec; tauto.
+    injection Hd as <-. cbn [marshal_date] in Hm. apply enc_date_spec. exact Hm.
   - change (denote_native Id.date (GTime sec nsec)) with (if zero_time sec nsec then None else Some (Some (VInt (millis_of sec nsec / ms_per_day)))) in Hd.
     cbn [marshal_date] in Hm. change (time_is_zero sec nsec) with (zero_time sec nsec) in Hm.
-    destruct (zero_time sec nsec); [discriminate|]. injection Hd as <-. ok_inv Hm.
-    cbn [wf_native clean_native] in *. destruct Hcl as [Hcl1 Hcl2]. specialize (Hcl1 (or_intror eq_refl)). specialize (Hcl2 eq_refl).
-    destruct Hcl1 as [Hlo Hhi]. rewrite time_millis_spec by assumption. apply date_bytes_spec; tauto.
+    destruct (zero_time sec nsec); [discriminate|]. injection Hd as <-.
+    cbn [wf_native clean_native] in *. specialize (Hcl (or_intror eq_refl)).
+    destruct Hcl as [Hlo Hhi]. rewrite time_millis_spec in Hm by assumption. apply enc_date_spec. exact Hm.
 Qed.
 
 Lemma enc_vints_spec m d n : - 2 ^ 31 <= m < 2 ^ 31 -> - 2 ^ 31 <= d < 2 ^ 31 -> - 2 ^ 63 <= n < 2 ^ 63 ->
@@ -395,7 +403,7 @@ Proof.
   destruct g as [| |k named z| | | | | | | | |ns|m d n| | | | | | | | | | | ]; try discriminate.
   - injection Hm as <-. injection Hd as <-. reflexivity.
   - destruct k; try discriminate. change (denote_native Id.duration (GInt I64 named z)) with (Some (Some (VDuration 0 0 z))) in Hd.
-    injection Hd as <-. cbn [clean_native] in Hcl. destruct Hcl as [_ [Hcl _]]. specialize (Hcl eq_refl). subst named.
+    injection Hd as <-.
     cbn [wf_native kmin kmax] in Hwf. cbn [marshal_duration] in Hm. ok_inv Hm. apply enc_vints_spec; pow_consts; lia.
   - change (denote_native Id.duration (GDur ns)) with (Some (Some (VDuration 0 0 ns))) in Hd.
     injection Hd as <-. cbn [wf_native] in Hwf. cbn [marshal_duration] in Hm. ok_inv Hm. apply enc_vints_spec; pow_consts; lia.
